@@ -9,8 +9,6 @@ package payload
 import (
 	"errors"
 	"io"
-	"path/filepath"
-	"strings"
 
 	"github.com/arm-doe/sts"
 	"github.com/arm-doe/sts/internal/verifrt"
@@ -19,7 +17,6 @@ import (
 func init() {
 	verifrt.Register("H_C13_DecoderStep", H_C13_DecoderStep)
 	verifrt.Register("H_C13_EncoderStep", H_C13_EncoderStep)
-	verifrt.Register("H_C13_Separator", H_C13_Separator)
 }
 
 // vStream is the request body as the part decoder sees it: it obeys the
@@ -190,33 +187,4 @@ func H_C13_EncoderStep(v *verifrt.T) {
 		v.Assert(err == nil, "C13.O1 no error in the middle of a part")
 		v.Assert(enc.binPart == real.parts[cur] && enc.partProgress == progress+int64(n), "C13.O1 progress advances by the bytes returned")
 	}
-}
-
-// O5: separator mapping of NewDecoder: splitting a name on the sender's
-// separator and joining with the receiver's keeps the non-empty segments in
-// order (names over the alphabet a, b, '.', '/', '\\').
-func H_C13_Separator(v *verifrt.T) {
-	n := 1 + v.Choose("len", v.Param("L", 4))
-	alphabet := []byte{'a', 'b', '.', '/', '\\'}
-	name := make([]byte, n)
-	for i := range name {
-		name[i] = alphabet[v.Choose("ch", len(alphabet))]
-	}
-	sep := []string{"/", "\\"}[v.Choose("sep", 2)]
-	got := filepath.Join(strings.Split(string(name), sep)...)
-	// reference: non-empty segments
-	var segs []string
-	for _, s := range strings.Split(string(name), sep) {
-		if s != "" {
-			segs = append(segs, s)
-		}
-	}
-	if sep == "\\" {
-		v.Reach("foreign-separator")
-	}
-	want := filepath.Clean(strings.Join(segs, "/"))
-	if len(segs) == 0 {
-		want = ""
-	}
-	v.Assert(got == want, "C13.O5 separator mapping keeps the segments")
 }
